@@ -63,9 +63,11 @@ def install(E):
                 val = val * 10 + d
                 if is_sym(val): val = simp(val)
                 i += 1
-                if i > 19: raise Unsupported('decimal string too long')
+                if i > 40: raise Unsupported('decimal string too long')
             if is_sym(val): return simp(-val if neg else val)
-            return mask(-val if neg else val, bits)
+            v = -val if neg else val
+            if bits == 64: v = max(-(1 << 63), min((1 << 63) - 1, v))          # glibc strtoll/atoll saturate on overflow
+            return mask(v, bits)
         return f
     S['atoll'] = atoll_bits(64); S['atol'] = atoll_bits(64); S['atoi'] = atoll_bits(32)
     def strtoll(E, st, fr, I, A):
